@@ -159,9 +159,14 @@ def one_case(acc, plan, case, rowname, wordrepr):
             if not r2.diffs and r2.status not in ('unpred', 'skip', 'host-error'):
                 acc.known_hit(key)
                 return res
+            if r2.status in ('unpred', 'skip') and not (r2.exc is not None and not target.escape_ok(r2.exc)):
+                # inside the finding's region the quirk leads to behaviour the architecture leaves open: nothing exact to compare with
+                acc.excluded += 1
+                acc.cls('excluded:known-finding-then-unpredictable:' + key)
+                return res
         for key in known.match_elsewhere(plan.prop, res, case):
             r2 = diff.run(case, quirks=(key,))
-            if not r2.diffs and r2.status not in ('unpred', 'skip', 'host-error'):
+            if (not r2.diffs and r2.status != 'host-error') and not (r2.exc is not None and not target.escape_ok(r2.exc)):
                 acc.excluded += 1
                 acc.cls('excluded:finding-listed-under-another-property:' + key)
                 return res
